@@ -280,6 +280,19 @@ class Sim:
             FAULTS_counting[0] = False
         return tr.count, dict(FAULTS_counts)
 
+    def dry_run_sites(self, i, op, arg):
+        """As dry_run, but records the (file, line) of every line event."""
+        objs = copy.deepcopy([c.obj for c in self.clients])
+        tr = LineTracer(None, record_sites=True)
+        FAULTS.disarm()
+        FAULTS_counts.clear()
+        FAULTS_counting[0] = True
+        try:
+            tr.run(lambda: call(objs[i], op, arg))
+        finally:
+            FAULTS_counting[0] = False
+        return tr.sites, dict(FAULTS_counts)
+
     # ---------------------------------------------------------------- execution
     def execute(self, st):
         i_step = len(self.events)
